@@ -13,7 +13,9 @@ from harness import session as S
 from harness import ws
 from harness.core import setup_repo_imports
 
-OPS = [op for op in S.ALL_OPS if op not in ("stats_dict", "interp_like")] + ["hmax_notime"] + S.FIT_OPS
+# statistics that take the water depth: given one depth per position, each spectrum must meet its own depth
+DEPTH_OPS = ["mss_depth", "uss_depth", "uss_x_depth", "celerity_depth"]
+OPS = [op for op in S.ALL_OPS if op not in ("stats_dict", "interp_like")] + ["hmax_notime"] + S.FIT_OPS + DEPTH_OPS
 POSWISE_EXEMPT = set()
 
 
@@ -45,6 +47,8 @@ def aux(shape, dims, fill, dry=False):
 def call(da, op, wargs):
     if op == "hmax_notime":
         return da.spec.hmax()
+    if op in DEPTH_OPS:
+        return getattr(da.spec, op[:-6])(depth=wargs[2])
     if op in ("ptm1", "ptm2", "ptm4", "ptm1_smooth", "ptm2_smooth"):
         w, wd, dp = wargs
         p = da.spec.partition
@@ -107,7 +111,7 @@ def run(ctx):
         w0, w1 = aux(shape, dims, v["before"], dry), aux(shape, dims, v["after"], dry)
         idxs = list(np.ndindex(*shape))
         pe = v["edited"] - 1
-        ops = OPS if not ctx.quick else [op for op in OPS if hash((op, tuple(v["before"]), ctx.seed)) % 2 == 0 or op in ("ptm1", "ptm3", "ptm4", "hs", "tp", "smooth33")]
+        ops = OPS if not ctx.quick else [op for op in OPS if hash((op, tuple(v["before"]), ctx.seed)) % 2 == 0 or op in ("ptm1", "ptm3", "ptm4", "hs", "tp", "smooth33", "mss_depth")]
         for op in ops:
             if op == "hmax_notime" and "time" in dims:
                 continue          # with a time axis hmax is a function of the whole axis (excluded by the property)
@@ -166,6 +170,8 @@ def call_ds(da, op, wargs):
     ds = da.to_dataset(name="efth")
     if op == "hmax_notime":
         return ds.spec.hmax()
+    if op in DEPTH_OPS:
+        return getattr(ds.spec, op[:-6])(depth=wargs[2])
     if op in ("ptm1", "ptm2", "ptm4", "ptm1_smooth", "ptm2_smooth", "ptm3", "ptm5", "bbox"):
         class _W:      # partition is reached through the same attribute on both accessors
             pass
